@@ -35,9 +35,12 @@ var (
 // structuralPatterns: the output is not in Caddy's config language at all (strict decoding,
 // module lookup, JSON typing) — never excusable by the input's values.
 var structuralPatterns = []string{
-	"unknown module", "module not registered", "decoding module config", "unknown field", "json:",
-	"invalid character", "cannot unmarshal", "unrecognized module", "module namespace", "is not a caddy",
+	"unknown module", "module not registered", "decoding module config", "json: unknown field", "json: cannot unmarshal",
+	"json: invalid", "unexpected end of JSON input", "unrecognized module", "is not a caddy",
 }
+
+// JSON syntax errors ("invalid character 'x' looking for beginning of value")
+var jsonSyntaxRe = regexp.MustCompile(`invalid character '.{1,8}' (looking for|after|in (string|numeric|literal))`)
 
 var provRe = regexp.MustCompile(`(?:provision|validate) ([a-z0-9_.]+): `)
 
@@ -55,6 +58,9 @@ func classifyInvalid(v validRes) (cls string, kind string) {
 		if strings.Contains(m, p) {
 			return "structural:" + signature(m[strings.Index(m, p):], 8), "structural"
 		}
+	}
+	if loc := jsonSyntaxRe.FindStringIndex(m); loc != nil {
+		return "structural:json-syntax", "structural"
 	}
 	for _, p := range envPatterns {
 		if strings.Contains(m, p) {
